@@ -71,6 +71,27 @@ pub fn run(ctx: &mut Ctx) {
         let mut v = n.to_be_bytes().to_vec(); v.extend([1, 2, 3, 4, 5, 6, 7, 8]);
         decode_arbitrary::<Witness>(ctx, "witness", &v, "limit");
     }
+    // F10: count word = limit on Vec<Input> / Vec<Output> / Vec<Witness>, in a child process (see c02alloc.rs)
+    {
+        let dir = std::env::temp_dir().join(format!("fv-c02alloc-{}-{}", std::process::id(), ctx.seed));
+        let t0 = std::time::Instant::now();
+        let st = std::env::current_exe().ok().and_then(|exe| std::process::Command::new(exe).arg("c02alloc").arg("--out").arg(&dir).status().ok());
+        match st {
+            Some(s) if s.success() => {
+                let ops = std::fs::read_to_string(dir.join("ops.txt")).unwrap_or_default();
+                let imp = std::fs::read_to_string(dir.join("impl.txt")).unwrap_or_default();
+                for (o, i) in ops.lines().zip(imp.lines()) { ctx.emit(o, i); ctx.count("alloc-probe.survived"); }
+                let failed = std::fs::read_to_string(dir.join("oracle.jsonl")).unwrap_or_default();
+                for l in failed.lines().filter(|l| !l.trim().is_empty()) { ctx.oracle_fail("alloc-probe-oracle", l, "oracle failure inside the allocation probe (child process)"); }
+                ctx.note(&format!("alloc-probe: count word = VEC_DECODE_LIMIT for inputs/outputs/witnesses decoded in a child process in {} ms (reserves up to 19 GB of address space before reading an element)", t0.elapsed().as_millis()));
+            }
+            other => {
+                ctx.count("alloc-probe.child-died");
+                ctx.note(&format!("alloc-probe: child process did not survive ({other:?}): allocation of VEC_DECODE_LIMIT elements refused by the allocator = abort, not a panic; outside the model (DESIGN F10)"));
+            }
+        }
+        let _ = std::fs::remove_dir_all(&dir);
+    }
     // every policy bit pattern of the low byte, with 6 words of values behind it
     for bits in 0u64..256 {
         let mut v = bits.to_be_bytes().to_vec();
